@@ -963,8 +963,8 @@ class SslAuthenticationType(enum.IntEnum):
 class SslErrorType(enum.IntEnum):
     NO_CIPHER_ERROR = 0x0001
     NO_CERTIFICATE_ERROR = 0x0002
-    BAD_CERTIFICATE_ERROR = 0x0003
-    UNSUPPORTED_CERTIFICATE_TYPE_ERROR = 0x0004
+    BAD_CERTIFICATE_ERROR = 0x0004
+    UNSUPPORTED_CERTIFICATE_TYPE_ERROR = 0x0006
 
 
 @attr.s
